@@ -71,7 +71,31 @@ CLAIMED = {
     "C08": dict(cat="model_checking", ref="DESIGN 5/C08",
         technique="RunTrace.tla outcome/goroutine monitor validating, by TLC, runs of the real pipeline (lexer -> semantic parser -> planner -> executor, as run.BQL) recorded in-process (recover, settled goroutine stacks filtered to badwolf/) and per child process (panics in other goroutines, log.Fatalf); inputs from the TLC derivation machine + hostile concretisations + all token-kind sequences <= 3 + random bytes; LexPipe.tla (lexer || channel || parser) model-checked for the leak predicate",
         text="Every run must end in exactly one of table / error, never panic, time out (10 s watchdog, re-run alone) or kill the process, and leave no goroutine with engine frames. 1.5*10^4 (quick) / 3.3*10^5 (thorough) texts: grammar-generated statements with plain and hostile literals/nodes/predicates/bounds/times (one hostile token at a time and random), prefixes, prefix + one token, token mutations, statement + statement, all kind sequences up to length 3 (quick: 2% sample), random bytes and byte mutations, against a populated and an empty memory store.",
-        note="Level model_checking for the pipeline model and trace validation, exploration for raw bytes (evidence carries both key sets). Known findings: panics for blob literals shorter than 2 chars and for the anchor '\"' (value family). Driver failures are C20."),
+        note="Level model_checking for the pipeline model and trace validation, exploration for raw bytes (evidence carries both key sets). The two panics first found here (blob literal shorter than 2 chars, anchor of one double quote) were repaired in the value parsers (fixed: entries). Driver failures are C20."),
+    "C19": dict(cat="model_checking", ref="DESIGN 5/C19",
+        technique="TLA+ Memo.tla (per-graph cache, key incl. offset, CheckCache ; Replay | Forward ; Fill, Clear ; ForwardWrite) model-checked by TLC for Transparent and used to enumerate ALL schedules of 1 writer + 1-2 readers; every schedule forced on the real memoizer through verifYield gates (build tag verif) and the recorded invoke/return history validated by TLC (MemoTrace.tla) against the wrapped store's own answers; plus lock-step sequential histories and a cache-key sweep",
+        text="(i) sequential lock-step histories (memoized store vs plain twin) over all lookup methods, option shapes incl. window/filter/LatestAnchor/MaxElements/Offset, Exist, Triples, two handles of one graph, failing forwarded reads; (ii) every schedule TLC enumerates at the grain CheckCache/Forward/Fill/Clear/ForwardWrite/Return for 1 writer and 1-2 readers (same/different key, same/second handle) is forced on the real code; (iii) key sweep: pairs of requests differing in exactly one argument or option must not share a cached answer. TLC requires every answer to equal the wrapped graph's answer at an instant inside the call and never one older than the last returned write. Exhaustive over the schedules of the bounded model, sampled for sequential histories.",
+        note="Needs the verifYield hook (storage/memoization/verif_on.go). Each named deviation of Memo.tla (offset not in key, per-handle cache, fill after clear, memoized failed read) is model-checked to violate Transparent as a non-vacuity control. Trusted: TLC, harness/uni, the gate scheduler of memodrv."),
+    "C07": dict(cat="model_checking", ref="DESIGN 5/C07",
+        technique="TLA+ ConcStore.tla (Go RW-mutex with writer preference, batch-atomic add, per-triple remove, streaming lookups under the read lock, store-level lock) model-checked by TLC for refinement to the sequential store, dead-lock freedom and close-exactly-once; invoke/return histories recorded from the real store built with -race are validated by TLC (ConcTrace.tla places the silent linearisation steps; a history is rejected iff no placement explains the results); race-detector reports, panics, watchdog, channel-close counters and options observers are events the spec has no action for",
+        text="All interleavings of 2 processes x <=2 operations and 3 processes x 1 operation over 3 triples / 2 graph names in the model; on the real code: many small random histories (<=4 goroutines x <=4 ops: add/remove batches, Exist, all lookups with options, create/get/drop graphs) checked for linearisability by TLC, targeted schedules derived from model counterexamples (lookup parked on an undrained channel while another call runs; batch atomicity), long hammer/stress runs under the race detector with close-exactly-once and options-untouched observers and a dead-lock watchdog.",
+        note="Data-race freedom is the Go race detector's judgement on the executions run, not TLC's. Clients drain result channels. Real-time order from a global atomic counter read before each call and after its return."),
+    "C20": dict(cat="model_checking", ref="DESIGN 5/C20",
+        technique="TLA+ ExecPipeline.tla (goroutines/channels of simpleFetch, errgroup fan-out, update(), CONSTRUCT bulk writer, SHOW) model-checked by TLC for FailureSurfaces and eventual termination of every goroutine under each fault; the same module (PlanSpec) enumerates ALL fault plans (call position x before/after j/on write) of the fault-free driver call sequence of every corpus statement; each plan executed on the real planner over a fault-injecting storage.Store/Graph and the recorded run validated by TLC (FaultTrace.tla)",
+        text="66 statements (every plan type, 1-3 clauses, every simpleFetch branch, OPTIONAL, GROUP BY, CONSTRUCT/DECONSTRUCT with and without ';', several target graphs, SHOW, CREATE/DROP) x store configurations (direct, memoized) x every driver call of the fault-free run x modes {before anything, after j elements, on write}: ~10^3 (quick) fault plans, each on a fresh store. TLC requires: a failed driver call => Execute returns an error (no table of partial data, no success), returns within the watchdog, and no goroutine with badwolf frames remains after settling.",
+        note="fault_enumeration style evidence keys are included. A failing driver call still closes its channel (as storage/memory does); ExecNoClose shows the planner hangs otherwise. A table returned together with the error is left open."),
+    "C05": dict(cat="model_checking", ref="DESIGN 5/C05",
+        technique="TLA+ ValueText.tla (printed forms and the parsers' delimiter rules over a symbolic alphabet) evaluated exhaustively by TLC for RoundTrip/Unambiguous to produce candidate values; valuedrv executes candidates + exhaustive short strings over the delimiter alphabet + boundary and seeded random values on the real constructors, printers and parsers; every print->parse->print and WriteGraph->ReadIntoGraph case is validated by TLC (ValueTrace.tla) on components read back by accessors",
+        text="All strings up to length 3 over an 18-character delimiter alphabet as node id / node type / predicate id (immutable and temporal) / text, alone, as object and (length <=2) inside triples; numbers, anchors (zones, sub-second, year boundaries), blobs, composite values and graphs (<=30 triples) from boundary sets and seeded random; TLC requires same kind, equal components (anchors equal as instants with the same offset), identical second print; graphs: same triple set and both counts equal its size.",
+        note="Documented domain per docs/temporal_graph_modeling.md; ids with white space, node types containing '<' or '>', non-UTF-8 ids and sub-minute zone offsets are left open (counted). Known findings: text literal containing a line break in WriteGraph/ReadIntoGraph."),
+    "C06": dict(cat="model_checking", ref="DESIGN 5/C06",
+        technique="TLA+ Identity.tla (UUID(v) represented by the byte string fed to SHA1; Injective/Functional/Total) evaluated by TLC over all same-kind pairs of a 175-value near-miss universe to produce colliding/undefined candidates; valuedrv executes all pairs and candidates on the real code (UUID equality, Triple.Equal, Graph.Exist vs component equality; UUID twice, in 4 goroutines and in a child process) and TLC validates every recorded pair (ValueTrace.tla)",
+        text="All same-kind pairs of the universe (nodes whose type/id boundary shifts, ids equal to types, predicates differing only in kind/instant/zone, literals of different types with equal encodings, int64/float64 boundary values, objects boxing a node/predicate/literal with coinciding bytes, triples differing in one component) plus boundary sets and seeded near-miss pairs: TLC requires equal UUID <=> same kind and equal components (anchors as instants), Equal likewise, UUID stable across calls/goroutines/processes and defined (no panic) for every constructible value.",
+        note="SHA1 is treated as injective. +0/-0 float64 pairs are left open. Known findings: node type/id boundary (node.TestUUID pins the formula), anchors 2^64 ns apart (UnixNano wraps)."),
+    "C15": dict(cat="model_checking", ref="DESIGN 5/C15",
+        technique="TLA+ ValueText.tla ParsersTotal (the slice expressions of the node/predicate/literal/object/triple parsers as partial functions) evaluated exhaustively by TLC over symbol strings up to length 4-6 to predict out-of-range inputs; valuedrv runs the candidates, all short strings over delimiter alphabets, token sequences, mutations of printed values, random strings and files through the real parsers and ReadIntoGraph under recover/watchdog; TLC validates every event (ValueTrace.tla): value xor error, well-formed, reprint accepted as an equal value, reader loads exactly the prefix before the first malformed line",
+        text="~10^5 (quick) parser calls: all strings up to length 3 over the 18-character delimiter alphabet for each of the 5 parsers, up to length 4 over 7-character per-parser alphabets, token sequences up to 4 tokens, truncate/delete/duplicate/inject mutations of printed values, seeded random strings; files with malformed lines at every position, blank lines, long lines (>64 KiB), for ReadIntoGraph. A 15 s watchdog turns non-termination into an event.",
+        note="A line is malformed when the real triple.Parse rejects it. A parsed value whose components the exported constructors refuse is left open (counted)."),
 }
 
 PENDING_REASON = "not claimed yet: the TLA+ module and conformance driver for this property are designed (DESIGN 5) but not built/validated in this commit"
@@ -119,7 +143,7 @@ def main():
     print("MANIFEST: %d claimed, %d not claimed" % (len(checks), len(m["not_applicable"])))
 
 
-HOOK_COMMITS = []
+HOOK_COMMITS = ["3fd9383", "b9c97f4"]
 NA = {}
 
 if __name__ == "__main__":
